@@ -27,7 +27,7 @@ MANIFEST = {
     'technique': 'runtime differential monitor: real rrule iteration under a sys.monitoring period probe vs an independent brute-force RFC 5545 enumerator',
     'level_text': 'Thousands of seeded rules per run covering the BY-part product are executed by the real iterator and compared '
                   'item by item with a definitional enumerator; the period probe bounds every iteration in logical steps.  Two '
-                  'open findings (K1, K2) are classified by mechanism.  Exploration: held on the rules and horizons observed.',
+                  'mismatches are classified by mechanism against known_findings.json (K1, K2: both repaired, so any recurrence is a violation).  Exploration: held on the rules and horizons observed.',
     'level_note': 'Trusts rrule_ref (self-tested) and CPython datetime/calendar; horizon-bounded, so carry errors beyond the horizon '
                   'are only seen through the MAXYEAR class of starts (year 9990).',
 }
